@@ -17,11 +17,19 @@
    cuts nothing (C12_same_language_no_cut).  The threshold rule on three
    sections: a short insertion becomes a part of its own and its neighbours
    are joined around the placeholder (C12_short_insertion_joined), a long one
-   stays between them (C12_long_insertion_kept).  Not proved: the label under
-   deeper nesting (the full stack discipline) and the threshold rule on longer
-   section lists; compared with the implementation and decided by the
-   oracle of harness/props/c12.py on the C12 stream. *)
-From YV Require Import PyBase Token Utils Ml MlProofs MlInsert.
+   stays between them (C12_long_insertion_kept).  The threshold pass on section
+   lists of any length (coq/proofs/MlJoin.v): every section ends up in exactly
+   one returned part, whole and unchanged, behind the sections that stood in
+   front of it; between the sections of a part stands inserted material only
+   (C12_threshold_pass_any_length); the sections of a part carry the language
+   of the part (C12_part_language); and the table returned by get_txt_pos_ml
+   lists under each language exactly the parts labelled with it, in order
+   (C12_every_section_in_one_part).  Not proved: the label under deeper nesting
+   (the full stack discipline) and which insertions the threshold rule selects
+   on longer lists; compared with the implementation and decided by the oracle
+   of harness/props/c12.py on the C12 stream. *)
+From Coq Require Import Sorting.Permutation.
+From YV Require Import PyBase Token Utils Ml MlProofs MlInsert MlJoin.
 Open Scope Z_scope.
 
 Theorem C12_sections_conserve : forall toks stack back brk cur secs,
@@ -89,6 +97,53 @@ Theorem C12_long_insertion_kept : forall is_space check_lang thresh k s0 s1 s2 r
   = Ok [s0; s1; s2].
 Proof. exact join_long_insertion. Qed.
 Print Assumptions C12_long_insertion_kept.
+
+(* the threshold pass, any number of sections *)
+Theorem C12_threshold_pass_any_length : forall is_space check_lang thresh fuel secs rot res,
+  Forall (fun s => length (s_txt s) = length (s_pos s)) secs ->
+  join_sections is_space check_lang thresh fuel secs rot [] = Ok res ->
+  exists groups,
+    Forall2 glued res groups /\
+    Permutation (concat groups) secs /\
+    Forall (fun g => subseq g secs) groups.
+Proof. exact join_sections_glued. Qed.
+Print Assumptions C12_threshold_pass_any_length.
+
+Theorem C12_part_language : forall o srcs, glued o srcs ->
+  Forall (fun s => str_eqb (s_lang o) (s_lang s) = true) srcs.
+Proof. exact glued_lang. Qed.
+Theorem C12_part_positions_per_character : forall o srcs, glued o srcs ->
+  Forall (fun s => length (s_txt s) = length (s_pos s)) srcs ->
+  length (s_txt o) = length (s_pos o).
+Proof. exact glued_lengths. Qed.
+Print Assumptions C12_part_language.
+
+Theorem C12_every_section_in_one_part : forall is_space check_lang thresh toks main rot res,
+  get_txt_pos_ml is_space check_lang thresh toks main rot = Ok res ->
+  let secs := sections toks [main] false false [] [] in
+  exists out groups,
+    Forall2 glued out groups /\
+    Permutation (concat groups) secs /\
+    Forall (fun g => subseq g secs) groups /\
+    forall l, parts_of l res = map part (filter (fun s => str_eqb (s_lang s) l) out).
+Proof. exact ml_every_section_in_one_part. Qed.
+Print Assumptions C12_every_section_in_one_part.
+
+(* non-vacuity: two short insertions in one sentence, five sections, two
+   parts for the main language would be wrong -- the sentence stays one part *)
+Example C12_threshold_example :
+  let en := [101; 110]%N in let de := [100; 101]%N in
+  let sp := fun c => N.eqb c 32 in
+  let T := fun p c => TextT p [c] in
+  get_txt_pos_ml sp (fun l => l) 2
+    ([T 0 65%N; SpaceT 1 [32%N]] ++ LangT 2 de false false false :: [T 3 66%N] ++
+     LangT 4 [] true false false :: [SpaceT 5 [32%N]; T 6 67%N; SpaceT 7 [32%N]] ++
+     LangT 8 de false false false :: [T 9 68%N] ++ LangT 10 [] true false false ::
+     [SpaceT 11 [32%N]; T 12 69%N])
+    en [(en, [[88]; [89]])]%N
+  = Ok [(de, [([66]%N, [3]); ([68]%N, [9])]);
+        (en, [([65; 32; 89; 32; 67; 32; 88; 32; 69]%N, [0; 1; 3; 5; 6; 7; 9; 11; 12])])].
+Proof. vm_compute. reflexivity. Qed.
 
 Example C12_insertion_example :
   let en := [101; 110]%N in let de := [100; 101]%N in
